@@ -9,13 +9,14 @@ import (
 
 // cNode counts deliveries (harness-only state; each instance is driven by at most one Send here)
 type cNode struct {
-	typ   NodeType
-	procs int
-	closes int
+	typ     NodeType
+	procs   int
+	closes  int
+	reopens int
 }
 
 func (n *cNode) Process(ctx context.Context, e *Event) (*Event, error) { n.procs++; return e, nil }
-func (n *cNode) Reopen() error                                        { return nil }
+func (n *cNode) Reopen() error                                        { n.reopens++; return nil }
 func (n *cNode) Type() NodeType                                       { return n.typ }
 func (n *cNode) Close(ctx context.Context) error                      { n.closes++; return nil }
 
@@ -385,7 +386,8 @@ func H_C12_reentry_vs_writer() {
 	b.RegisterNode("of", &rNode{typ: NodeTypeFormatter})
 	b.RegisterPipeline(Pipeline{PipelineID: "p", EventType: "t", NodeIDs: []NodeID{"f", "s"}})
 	b.RegisterPipeline(Pipeline{PipelineID: "o", EventType: "other", NodeIDs: []NodeID{"of", "s"}})
-	k := symLen(0, 2)
+	k := symLen(0, 7)
+	verifNoteInt("writer", k)
 	verifInterleave(true)
 	verifGo(func() { b.Send(ctx, "t", "payload") })
 	verifGo(func() {
@@ -396,6 +398,17 @@ func H_C12_reentry_vs_writer() {
 			b.SetSuccessThresholdSinks("t", 1)
 		case 2:
 			b.RegisterNode("x", &rNode{typ: NodeTypeSink})
+		case 3:
+			// the pipeline the event is travelling through is removed meanwhile
+			b.RemovePipelineAndNodes(ctx, "t", "p")
+		case 4:
+			b.RemovePipeline("t", "p")
+		case 5:
+			b.RegisterPipeline(Pipeline{PipelineID: "p", EventType: "t", NodeIDs: []NodeID{"f", "s"}})
+		case 6:
+			b.RemovePipelineAndNodes(ctx, "other", "o")
+		case 7:
+			b.Reopen(ctx)
 		}
 	})
 	verifJoin()
